@@ -25,14 +25,14 @@ def _core():
 def _block():
     J = []
     for tmo, tn in ((25000, "t25s"), (0x7fffffff, "inf")):
-        for sc in ("R", "NR", "SR", "NSR", "C", "NC", "SC", "RC", "N", "NN", "S"):
-            if tn == "inf" and not any(c in sc for c in "RC"): continue        # an infinite wait on a silent, open connection never returns: no finite run to check
+        for sc in ("R", "NR", "SR", "NSR", "C", "NC", "SC", "RC", "N", "NN", "S", "T", "NT", "ST"):
+            if tn == "inf" and (not any(c in sc for c in "RC") or "T" in sc): continue        # an infinite wait on a silent, open connection never returns: no finite run to check
             J.append(Job(name=f"block.{tn}.{sc}", group="C17.block", harness="harness/C17_pending.c", defines={"NCALLS": 1, "WITH_BLOCK": 1, "TMO": tmo, "SCRIPT": '"' + sc + '"'}, real=["dbus/dbus-list.c"],
                          env=["assert_stubs.c", "pool_lock.c"], checks="assert", unwind=6, unwindset=["strcmp.0:64"], extra=["--object-bits", "12"], timeout=900, mem_gb=16,
                          encodes=["_dbus_connection_block_pending_call", "check_for_reply_and_update_dispatch_unlocked", "_dbus_connection_do_iteration_unlocked", "_dbus_connection_acquire_io_path",
                                   "_dbus_connection_release_io_path", "_dbus_connection_get_dispatch_status_unlocked", "notify_disconnected_and_dispatch_complete_unlocked",
                                   "connection_timeout_and_complete_all_pending_calls_unlocked", "complete_pending_call_and_unlock", "generate_local_error_message", "_dbus_connection_flush_unlocked"],
-                         stubs=["transport iteration = the job's concrete peer script (N nothing / S unrelated signal / R the reply / C close), silent afterwards", "monotonic clock = symbolic non-decreasing milliseconds",
+                         stubs=["transport iteration = the job's concrete script (N nothing / S unrelated signal / R the reply / C close / T another thread fires the call's timeout and dispatches it while the lock is dropped), silent afterwards", "monotonic clock = symbolic non-decreasing milliseconds",
                                 "reference counts: _dbus_atomic_dec asserts 'not the last reference' and returns that constant", "connection lock / I/O path = ghost flags (single thread)"],
                          assumes=["single thread: nobody else holds the I/O path or dispatches concurrently", "after the script plus one silent iteration a finite timeout has elapsed (loop bound)"],
                          bounds=f"one call with {'an infinite' if tn == 'inf' else 'a 25 s'} timeout; peer script '{sc}'; every clock reading symbolic (0..40 s apart); reply type symbolic",
